@@ -219,14 +219,16 @@ def real_models(run, repo):
         fr = Frame(I, repo.module('pmutt'), {}, None, None)
         T, P = D.sym('T'), D.sym('P')
         covs = {}
+        # names of real adsorbates: one is a prefix of another, one is a suffix-free part of both
+        NAME = {'B': 'CO', 'C': 'CO2', 'D': 'O'}
         for j in ('B', 'C', 'D'):
             covs[j] = fr.apply(repo.cls('pmutt.mixture.cov.PiecewiseCovEffect'), [],
-                               {'name_i': 'sp', 'name_j': j, 'intervals': ListV([C(0), D.sym('b' + j)]),
+                               {'name_i': 'sp', 'name_j': NAME[j], 'intervals': ListV([C(0), D.sym('b' + j)]),
                                 'slopes': ListV([D.sym('k0' + j), D.sym('k1' + j)])}, None)
         Rk = D.sym('kb') * D.sym('Na') * D.sym('U<kcal>')
-        for order_ in (('B', 'C'), ('C', 'B'), ('D', 'B', 'C')):
+        for order_ in (('B', 'C'), ('C', 'B'), ('D', 'B', 'C'), ('C', 'D', 'B')):
             o = species_obj(I, repo, kind, ListV([covs[j] for j in order_]))
-            blocks = {'%s_kwargs' % j: DictV({'x': D.sym('x' + j)}) for j in order_}
+            blocks = {'%s_kwargs' % NAME[j]: DictV({'x': D.sym('x' + j)}) for j in order_}
             want = bare(I, repo, kind, o, 'HoRT', T)
             for j in order_:
                 want = want + D.sym('k0' + j) * D.sym('x' + j) / (Rk * T)
@@ -237,7 +239,7 @@ def real_models(run, repo):
             run.check(same(got, want), 'REF.corrections', '%s.get_HoRT' % kind, 'coverage effects of several species',
                       'with coverage effects of species %s attached and each coverage given in its own '
                       '<name>_kwargs block the value is %s, expected polynomial + sum_j slope_j*x_j/RT'
-                      % (','.join(order_), show(got, 240)), owner.module, fn)
+                      % (','.join(NAME[j] for j in order_), show(got, 240)), owner.module, fn)
             run.check(all(sorted(b.d) == ['x'] for b in blocks.values()), 'EFFECT.caller-dict', '%s.get_HoRT' % kind,
                       'per-species blocks', 'a caller-supplied per-species dictionary was modified', owner.module, fn)
             n += 2
